@@ -188,6 +188,10 @@ def cases(tier, seed):
                 out.append({"problem": problem, "prog": prog, "mesh": "base", "ground": GROUNDS[problem][0], "orphan": False, "resol": "elim", "mode": mode,
                             "krylov": "cg", "homog": True})
     out.append({"kind": "solver_set"})
+    # every installed Krylov backend on a harder (slender) problem
+    for solver in installed_solvers():
+        if solver in ("cg", "bicg", "gmres", "lgmres"):
+            out.append({"kind": "krylov_hard", "solver": solver})
     # hinged connection of two beam members in 2D and in 3D (default = every rotation released, or the named axis released)
     for dim, kw in ((2, {}), (3, {}), (3, {"unknowns": ["rz"]})):
         out.append({"kind": "hinge", "dim": dim, "kwargs": kw})
@@ -936,7 +940,45 @@ def _run_hinge(case):
     return {"violations": v, "fingerprint": fp("hinge", case, u), "nontrivial": True, "transitions": 2, "outcome": "violation" if v else "ok"}
 
 
+def _run_krylov_hard(case):
+    """a slender cantilever (aspect ratio 20, 123 nodes): every installed Krylov backend either returns a field that satisfies the assembled
+    equations on the free dofs to its own tolerance, or refuses clearly; a non-converged iterate returned as 'the solution' is a violation"""
+    from EasyFEA import ElemType, Mesher, Models, Simulations
+    from EasyFEA.Geoms import Domain, Point
+
+    solver = case["solver"]
+    key = dict(kind="krylov_hard", solver=solver)
+    L, h = 100.0, 5.0
+    with contextlib.redirect_stdout(io.StringIO()):
+        mesh = Mesher().Mesh_2D(Domain(Point(), Point(L, h), h / 2), [], ElemType.QUAD4, isOrganised=True)
+        simu = Simulations.Elastic(mesh, Models.Elastic.Isotropic(2, E=210000.0, v=0.3, planeStress=True, thickness=1.0))
+        simu.solver = solver
+        simu.add_dirichlet(mesh.Nodes_Conditions(lambda x, y, z: x == 0), [0, 0], ["x", "y"])
+        simu.add_surfLoad(mesh.Nodes_Conditions(lambda x, y, z: x == L), [-1.0 / h], ["y"])
+        K, _, _, F = simu.Get_K_C_M_F()
+        K = K.toarray()
+        b = np.asarray(simu.Bc_vector_Neumann(), dtype=float).ravel() + F.toarray().ravel()
+        known, unknown = simu.Bc_dofs_known_unknown(simu.problemType)
+        try:
+            with warnings.catch_warnings():
+                warnings.simplefilter("ignore")
+                u = np.asarray(simu.Solve(), dtype=float)
+        except Exception as err:
+            if "converge" in str(err).lower():
+                return {"violations": [], "fingerprint": fp("krylov_refused", solver), "nontrivial": True, "transitions": 1, "outcome": "refused_not_converged"}
+            return {"violations": [viol("solve_raised", f"{solver} on the slender cantilever: {type(err).__name__}: {str(err)[:160]}", **key)],
+                    "fingerprint": fp("krylov_raised", solver), "nontrivial": True, "transitions": 1, "outcome": "violation"}
+    res = float(np.linalg.norm((K @ u - b)[unknown]) / np.linalg.norm(b[unknown]))
+    v = []
+    if not np.isfinite(res) or res > 1e-3:
+        v.append(viol("not_a_solution", f"{solver} on a slender cantilever ({mesh.Nn} nodes): Solve() returned normally a field with |K u - F| / |F| = {res:.2e} on the free dofs "
+                                        f"(the backend stopped at its iteration cap; nothing raised, nothing warned)", **key))
+    return {"violations": v, "fingerprint": fp("krylov_hard", solver, round(res, 3)), "nontrivial": True, "transitions": 1, "outcome": "violation" if v else "ok"}
+
+
 def run_case(case):
+    if case.get("kind") == "krylov_hard":
+        return _run_krylov_hard(case)
     if case.get("kind") == "hinge":
         return _run_hinge(case)
     if case.get("kind") == "resolve":
